@@ -176,6 +176,16 @@ func runC20(env *Env, tier string) {
 		p.OutSeq = NewAdv(s, hb, AdvOpts{}).engT()
 		env.Stat("probe_relogon_same_session")
 	}
+	// a slow counterparty: the answer to an initiator's Logon takes up to 1.4 intervals (within LogonTimeout)
+	s.LogonAnswerDelay = 0
+	if c.Initiator && ch.Chance("slowlogonanswer", 1, 3) {
+		d := time.Duration(hb) * time.Second * time.Duration(3+ch.Choose("answerdelay", 12)) / 10
+		if d > 3400*time.Millisecond {
+			d = 3400 * time.Millisecond
+		}
+		s.LogonAnswerDelay = d
+		env.Stat("fault_slow_logon_answer")
+	}
 	lg, ok := s.Logon(peerHB, false)
 	if !ok {
 		if conn > 0 {
@@ -193,6 +203,11 @@ func runC20(env *Env, tier string) {
 	m.start(time.Now())
 	m.lastOut = lg.At // the engine's own Logon is its last send so far (an initiator sent it before the peer answered)
 	m.needBy = lg.At.Add(m.hb + m.slack)
+	if now := time.Now(); s.LogonAnswerDelay > 0 {
+		// the interval without a send may already be over when the session is finally established: a
+		// Heartbeat is then due within one interval of that moment at the latest
+		m.needBy = now.Add(m.hb + m.slack)
+	}
 	sentN, recvN := len(p.Sent), len(p.Recv)
 	appCalls := 0
 
